@@ -281,3 +281,25 @@ Proof.
   - unfold on_disconnected. destruct (RO_BASE <=? x); reflexivity.
   - reflexivity.
 Qed.
+
+(* ------------------------------------------------------------------ *)
+(* full statements that are NOT proved here (they need Log Matching +   *)
+(* Leader Completeness, staged in DESIGN 5)                             *)
+(* ------------------------------------------------------------------ *)
+
+(* no two nodes apply different commands at the same index *)
+Definition C01_state_machine_safety_full (valid : conf -> list event -> Prop) : Prop :=
+  forall c evs g a b na nb ea eb,
+    valid c evs -> run_trace c ginit evs = Some g ->
+    aget a (nodes g) = Some na -> aget b (nodes g) = Some nb ->
+    In ea (log na) -> In eb (log nb) -> eidx ea = eidx eb ->
+    eidx ea <= applied na -> eidx eb <= applied nb ->
+    entry_eqb ea eb = true.
+
+(* a node's user state is the replay of one cluster-wide sequence up to `applied` *)
+Definition C01_state_is_replay_full (valid : conf -> list event -> Prop) : Prop :=
+  forall c evs, valid c evs ->
+    exists sigma : list entry,
+      forall evs1 evs2 g x n, evs = evs1 ++ evs2 -> run_trace c ginit evs1 = Some g ->
+        aget x (nodes g) = Some n ->
+        exists k, hist n = replay (firstn k sigma) /\ N.of_nat k + 1 = applied n.
